@@ -320,15 +320,19 @@ def dim_guard_edge(f, call_bb, kind, const):
         if s["kind"] != "value" or s["root"] is None:
             continue
         d = f.single_def(s["root"])
-        if kind == "dim" and d and d[0] == "assign" and d[3]["k"] == "binop" and d[3]["op"] == "Eq":
+        if kind == "dim" and d and d[0] == "assign" and d[3]["k"] == "binop" and d[3]["op"] in ("Eq", "Ne"):
             ls = [d[3]["l"], d[3]["r"]]
-            cs = [const_val(x) for x in ls]
+            cs = []
+            for x in ls:
+                cc = an.const_of(f, x)
+                cs.append(cc.get("val") if cc is not None and isinstance(cc.get("val"), int) and not isinstance(cc.get("val"), bool) else None)
             if const in cs:
                 other = ls[1 - cs.index(const)]
                 ol = op_local(other)
                 od = f.single_def(f.copy_root(ol)) if ol is not None else None
                 if od and od[0] == "call" and callee_is(od[2]["callee"], SP + "dimensions") and _param_deref(f, od[2]["args"][0]) == 1:
-                    if an.dominated_by_edge(f, sb, st["otherwise"], call_bb):
+                    equal_edge = st["otherwise"] if d[3]["op"] == "Eq" else an.edge_target(st, 0)
+                    if an.dominated_by_edge(f, sb, equal_edge, call_bb):
                         return True
         if kind == "shape33" and d and d[0] == "call" and callee_is(d[2]["callee"], "core::cmp::PartialEq::eq"):
             # Vec<usize> == [usize; 2] with promoted [3, 3]
